@@ -12,7 +12,7 @@ RULE = (
     "k in 1..4; 1..5 samples with 0..6 single-sample unobserved plates each (counts straddling k) and 0..2 observed plates, plate names drawn so that the plate ids of "
     "different samples interleave; a history "
     "of up to 3k selections where each step picks ANY plate of the currently allowed set (index drawn by Hypothesis), alternately by "
-    "calling filter_eligible_plates directly and through select_next_plate with scores making the pick the unique minimum; plus screens "
+    "calling filter_eligible_plates directly and through select_next_plate with scores making the pick the unique minimum (disallowed candidates score better still); in half the cases every selected plate is revealed in place before the next selection of the batch, as the retrospective pipeline does; plus screens "
     "with a multi-sample plate (must be refused). Non-trivial = history completes >=1 sample and opens a second. distinct = distinct case JSON."
 )
 ASSUMPTIONS = [
@@ -40,6 +40,8 @@ def _case(draw):
         "samples": samples,
         "picks": draw(st.lists(st.integers(0, 50), min_size=0, max_size=3 * k)),
         "via_select": draw(st.booleans()),
+        # as the retrospective pipeline does: every selected plate is revealed (set_observed) before the next selection of the batch
+        "reveal_selected": draw(st.booleans()),
         # plate ids follow the sorted plate names: a drawn key decides the order, so ids of different samples interleave
         "name_keys": draw(st.lists(st.integers(0, 99), min_size=40, max_size=40)),
         "multi": draw(st.integers(0, 7)) == 0,
@@ -126,6 +128,7 @@ def check_case(case):
     batch = []
     completed = 0
     opened = 0
+    revealed = 0
     labels = ["k=%d" % k]
     for step, pick in enumerate(case["picks"] + [0]):
         got = call_policy(batch)
@@ -178,8 +181,14 @@ def check_case(case):
         if s not in cb:
             opened += 1
         batch.append(chosen)
+        if case.get("reveal_selected"):
+            sel_ = np.asarray(plates[chosen].selection_vector)
+            screen.set_observed(sel_, np.full(int(sel_.sum()), 0.5))
+            revealed += 1
         if cb.get(s, 0) + 1 == k:
             completed += 1
     if completed:
         labels.append("completed>=1")
+    if revealed:
+        labels.append("selected-plates-revealed-mid-batch")
     return {"nontrivial": completed >= 1 and opened >= 2, "labels": labels + ["steps=%d" % min(len(batch), 6)], "counts": {"selections": len(batch)}}
